@@ -118,6 +118,11 @@ type Exec struct {
 	// no thread-local state (e.g. a worker at the top of its loop): such threads are
 	// interchangeable whatever their history.
 	SymIdle func(op *Op) bool
+	// DelayBounded switches the deviation measure from preemptions to delays (Emmi, Qadeer,
+	// Rakamaric 2011): the default scheduler continues the running thread and otherwise
+	// resumes the enabled thread with the lowest id; choosing any other thread costs one unit
+	// of PreemptBound, also at points where the running thread blocked or finished.
+	DelayBounded bool
 }
 
 var cur *Exec
@@ -477,6 +482,9 @@ func (x *Exec) loop() {
 			var k uint8
 			if runEnabled && e.t != r {
 				k |= 1
+			}
+			if x.DelayBounded && e.t != E[0].t {
+				k |= 1 // delay bounding: any departure from the default thread order counts
 			}
 			if e.alt > 0 && e.t.pending.Env {
 				k |= 2
